@@ -136,6 +136,7 @@ type Exec struct {
 	libUsed    map[string]bool
 	heapSort   map[string]Sort
 	warnings   map[string]bool
+	lemmasUsed map[string]bool
 	untouched  map[*State]bool // branch states whose path condition is still the branch condition (no early exit inside)
 	code       []*codeCtx
 	nInline    int
@@ -168,7 +169,7 @@ func newExec(prog *Program, pkg *packages.Package, fn *types.Func, fc *FuncContr
 		boxed: map[types.Object]bool{}, closures: map[string]*closure{},
 		builders: map[string]bool{}, dynType: map[string]types.Type{},
 		strLits: map[string]*T{}, unmodelled: map[string]bool{}, stores: map[string]bool{},
-		assumptions: map[string]bool{}, libUsed: map[string]bool{}, heapSort: map[string]Sort{}, untouched: map[*State]bool{}, bindsUsed: map[*Bind]bool{}, warnings: map[string]bool{},
+		assumptions: map[string]bool{}, libUsed: map[string]bool{}, heapSort: map[string]Sort{}, untouched: map[*State]bool{}, bindsUsed: map[*Bind]bool{}, warnings: map[string]bool{}, lemmasUsed: map[string]bool{},
 	}
 	ex.st = &State{env: map[string]*T{}, pc: True}
 	for _, n := range []string{"errIs", "dyntype", "ifaceI", "ifaceS", "ifaceO", "memB", "memI", "memS", "memO", "wfS", "bytesEq", "atB", "atI", "atS", "atO"} {
